@@ -470,6 +470,10 @@ pub fn close_tol(a: f64, b: f64, tol: f64) -> bool {
     if a.is_nan() || b.is_nan() {
         return a.is_nan() && b.is_nan();
     }
+    // an infinity is close to nothing but itself (the relative form below would accept any pair)
+    if a.is_infinite() || b.is_infinite() {
+        return false;
+    }
     (a - b).abs() <= tol * 1f64.max(a.abs()).max(b.abs())
 }
 
